@@ -17,8 +17,13 @@
   with, in addition, no `runSearch id` / `destroy id` / `create id` in `later` (`RegOp.quiet id`): `post` are the
   calls between the creation and the LAST search on `id`, `later` what happened since. By `api_live_shape` every
   live id has a call list of the first shape, so nothing is lost. Read off `post`:
-  `addedOf id post` (the `(recId, raw title, rating)` of the `add_record` calls on `id`), `limitOf id post` (last
-  `set_limit` on `id`, default 10) and `markersOf id post` (last `highlight_with` on `id`, default `[` `]`).
+  `addedOf id post` (the `(recId, raw title, rating)` of the `add_record` calls on `id` made since the last
+  `clearStore id` in `post`, all of them if there is none), `limitOf id post` (last `set_limit` on `id`, default 10)
+  and `markersOf id post` (last `highlight_with` on `id`, default `[` `]`).
+
+  `clearStore id` is `using_store(id, |s| s.clear())`: reachable through the Rust API, not through the WASM bridge.
+  It empties the store of `id`, keeps its limit, markers and language, and does not touch any result buffer; it
+  may occur anywhere in `pre`, `post`, `later` (it is neither a `destroy`/`create` nor a search).
 -/
 import LucidProofs.C02b
 import LucidProofs.C03b
@@ -101,6 +106,7 @@ theorem C01_api_registry_safe (S : Sorter) (hS : SorterOK S) (envs : Nat → Env
   | destroy id => rfl
   | highlightWith id l r => rfl
   | setLimit id n => rfl
+  | clearStore id => rfl
 
 /-- `C01_api_registry_safe` as one Boolean over the whole run. -/
 theorem C01_api_registry_runSafe (S : Sorter) (hS : SorterOK S) (envs : Nat → Env) (hE : EnvsOK envs)
@@ -251,7 +257,8 @@ theorem C06_api_no_search_empty (S : Sorter) (envs : Nat → Env) (pre later : L
 /-- **C12 at the top-level API.** If the raw query `q` tokenises to no word (it contains no letter or digit: empty,
     blanks, punctuation), then after `run_search(id, q)` — and until the next search on `id` — the buffer of `id`
     holds exactly `min(limit, n)` results, where `limit` is the limit in force at the search and `n` the number of
-    `add_record` calls on `id` since its creation (the registry has no `clear`). -/
+    `add_record` calls on `id` since its creation or, if it was cleared (`clearStore id`), since the last clear
+    (`addedOf id post`). -/
 theorem C12_api_empty_query (S : Sorter) (hS : SorterOK S) (envs : Nat → Env) (hE : EnvsOK envs)
     (pre post later : List RegOp) (id lang : Nat) (q : List Nat)
     (hv : Registry.allValid S Gen.srcProg envs Registry.empty
@@ -268,14 +275,17 @@ theorem C12_api_empty_query (S : Sorter) (hS : SorterOK S) (envs : Nat → Env) 
 
 /-! ## C03 / C13 — what is typed is found -/
 
-/-- **C03 at the top-level API.** A record was added to `id` with raw title `title`. Take a word `w` of its
+/-- **C03 at the top-level API.** A record was added to `id` with raw title `title` and `id` was not cleared since
+    (`hadd`; by `mem_addedOf` this says: `post = a ++ add_record(id, recId, title, rating) :: b` with no
+    `clearStore id` in `b`; without any `clearStore id` in `post` it is `add_record … ∈ post`,
+    `mem_addedOf_noClear`). Take a word `w` of its
     tokenised title and the first `k ≥ 1` characters `p` of that word (normalised, lower-cased form, as stored). If
     `p` ends in a letter or digit and is left unchanged by the language's compose / reduce tables, and `id` holds no
     more records than its limit, then after `run_search(id, p)` — the RAW string `p` — the buffer of `id` contains a
     result with that record's `recId` (until the next search on `id`). -/
 theorem C03_api_prefix (S : Sorter) (hS : SorterOK S) (envs : Nat → Env) (hE : EnvsOK envs)
     (pre post later : List RegOp) (id lang : Nat)
-    (recId : Nat) (title : List Nat) (rating : Nat) (hadd : RegOp.addRecord id recId title rating ∈ post)
+    (recId : Nat) (title : List Nat) (rating : Nat) (hadd : (recId, title, rating) ∈ addedOf id post)
     (w : WordShape) (hw : w ∈ (tokenizeRecord Gen.srcProg (envs lang) title).words) (k : Nat) (hk1 : 1 ≤ k)
     (p : List Nat) (hp : p = (wchars (tokenizeRecord Gen.srcProg (envs lang) title) w).take k)
     (hlast : p.getLast?.map (envs lang).U.isAlnum = some true)
@@ -305,12 +315,13 @@ theorem C03_api_prefix (S : Sorter) (hS : SorterOK S) (envs : Nat → Env) (hE :
     rw [h1, h2]; exact hlim
 
 /-- **C13 at the top-level API.** A record was added to `id` with raw title `title` (any text: several words,
-    capitals, accents, punctuation) that has at least one word, and `id` holds no more records than its limit. Then
+    capitals, accents, punctuation) that has at least one word, `id` was not cleared since (`hadd`, see
+    `mem_addedOf` / `mem_addedOf_noClear`), and `id` holds no more records than its limit. Then
     after `run_search(id, title)` — the very string that was added — the buffer of `id` contains a result with
     that record's `recId` (until the next search on `id`). -/
 theorem C13_api_whole_title (S : Sorter) (hS : SorterOK S) (envs : Nat → Env) (hE : EnvsOK envs)
     (pre post later : List RegOp) (id lang : Nat)
-    (recId : Nat) (title : List Nat) (rating : Nat) (hadd : RegOp.addRecord id recId title rating ∈ post)
+    (recId : Nat) (title : List Nat) (rating : Nat) (hadd : (recId, title, rating) ∈ addedOf id post)
     (hne : (tokenizeRecord Gen.srcProg (envs lang) title).words ≠ [])
     (hv : Registry.allValid S Gen.srcProg envs Registry.empty
             (pre ++ RegOp.create id lang :: post ++ RegOp.runSearch id title :: later) = true)
@@ -335,12 +346,83 @@ theorem C13_api_whole_title (S : Sorter) (hS : SorterOK S) (envs : Nat → Env) 
       (Store.run S Gen.srcProg.K Gen.srcProg.order (Store.new Gen.srcProg.K) _).limit
     rw [h1, h2]; exact hlim
 
+/-! ## C10 — the buffer is what a newly constructed store answers -/
+
+/-- the newly constructed store of C10 for a store id with language environment `E`: `Store::new()`, then the limit,
+    then the markers, then one `add_record` per triple `(recId, raw title, rating)` in order (titles tokenised for
+    `E`); no search has been run on it, no record was ever removed from it -/
+def freshFor (E : Env) (limit : Nat) (markers : List Nat × List Nat) (added : List (Nat × List Nat × Nat)) : Store :=
+  Store.fresh Gen.srcConsts limit markers (added.map (fun x => (x.1, tokenizeRecord Gen.srcProg E x.2.1, x.2.2)))
+
+/-- **C10 at the top-level API.** `id` was created with language `lang`, received the calls `post` — any mix of
+    `add_record`, `clearStore`, `set_limit`, `highlight_with`, `run_search`, interleaved with calls on other ids —
+    then `run_search(id, q)`. The buffer of `id` then holds (until the next search on `id`) exactly what a NEWLY
+    CONSTRUCTED store answers to `q`: one that was given the limit and the markers in force, and then the records
+    `id` currently holds (`addedOf id post`: those added since the last `clearStore id`), in the same order, and
+    nothing else. Whatever caches and index entries the long-lived store accumulated make no difference. Holds for
+    every sorting routine and every family of environments. -/
+theorem C10_api_fresh (S : Sorter) (envs : Nat → Env) (pre post later : List RegOp) (id lang : Nat) (q : List Nat)
+    (hv : Registry.allValid S Gen.srcProg envs Registry.empty
+            (pre ++ RegOp.create id lang :: post ++ RegOp.runSearch id q :: later) = true)
+    (hk : ∀ op ∈ post, op.keeps id = true) (hq : ∀ op ∈ later, op.quiet id = true) :
+    amGet (Registry.empty.run S Gen.srcProg envs
+        (pre ++ RegOp.create id lang :: post ++ RegOp.runSearch id q :: later)).results id =
+      some ((freshFor (envs lang) (limitOf id post) (markersOf id post) (addedOf id post)).search S Gen.srcConsts
+        Gen.srcScoreOrder (tokenizeQuery Gen.srcProg (envs lang) q)) := by
+  rw [buffer_after_search S envs pre post later id lang q hv hk hq]
+  obtain ⟨h1, h2, h3⟩ := store_fields S (envs lang) id post
+  have e := search_eq_rebuild
+    (StoreInv_reachable S Gen.srcConsts Gen.srcScoreOrder (storeOpsOf Gen.srcProg (envs lang) id post))
+    Gen.srcScoreOrder (tokenizeQuery Gen.srcProg (envs lang) q)
+  rw [show runOne S Gen.srcProg (storeOpsOf Gen.srcProg (envs lang) id post) =
+      Store.run S Gen.srcConsts Gen.srcScoreOrder (Store.new Gen.srcConsts)
+        (storeOpsOf Gen.srcProg (envs lang) id post) from rfl] at h1 h2 h3 ⊢
+  rw [e, Store.rebuild, h1, h2, h3]
+  rfl
+
+/-- **C10 at the top-level API, after a clear.** `id` was created, received the calls `mid`, was cleared
+    (`clearStore id` = `using_store(id, |s| s.clear())`), then received the calls `post` — `add_record`,
+    `set_limit`, `highlight_with`, `run_search` on `id` and anything on other ids, but no further `clearStore id` /
+    `destroy id` / `create id` — then `run_search(id, q)`. The buffer of `id` then holds exactly what a newly
+    constructed store answers to `q` that was given the limit and markers in force (a clear resets neither: they
+    are those of the last `set_limit` / `highlight_with` on `id` since its creation, before or after the clear) and
+    then ONLY the records added AFTER the clear (`addsOf id post`: all `add_record` calls on `id` in `post`, in
+    order). Nothing of what was added, indexed or cached before the clear has any influence. -/
+theorem C10_api_clear (S : Sorter) (envs : Nat → Env) (pre mid post later : List RegOp) (id lang : Nat)
+    (q : List Nat)
+    (hv : Registry.allValid S Gen.srcProg envs Registry.empty
+            (pre ++ RegOp.create id lang :: (mid ++ RegOp.clearStore id :: post) ++ RegOp.runSearch id q :: later)
+              = true)
+    (hkm : ∀ op ∈ mid, op.keeps id = true) (hkp : ∀ op ∈ post, op.keeps id = true)
+    (hnc : ∀ op ∈ post, op ≠ RegOp.clearStore id) (hq : ∀ op ∈ later, op.quiet id = true) :
+    amGet (Registry.empty.run S Gen.srcProg envs
+        (pre ++ RegOp.create id lang :: (mid ++ RegOp.clearStore id :: post) ++ RegOp.runSearch id q :: later)).results
+          id =
+      some ((freshFor (envs lang) (limitOf id (mid ++ RegOp.clearStore id :: post))
+          (markersOf id (mid ++ RegOp.clearStore id :: post)) (addsOf id post)).search S Gen.srcConsts
+        Gen.srcScoreOrder (tokenizeQuery Gen.srcProg (envs lang) q)) := by
+  have hk : ∀ op ∈ mid ++ RegOp.clearStore id :: post, op.keeps id = true := by
+    intro op hop
+    rcases List.mem_append.mp hop with h | h
+    · exact hkm op h
+    · rcases List.mem_cons.mp h with h | h
+      · subst h; rfl
+      · exact hkp op h
+  rw [C10_api_fresh S envs pre _ later id lang q hv hk hq, addedOf_after_clear, addedOf_noClear id post hnc]
+
+/-- the limit and the markers in force after `mid ++ clearStore id :: post` are those after `mid ++ post`: the clear
+    call itself changes neither -/
+theorem limit_markers_clear (id : Nat) (mid post : List RegOp) :
+    limitOf id (mid ++ RegOp.clearStore id :: post) = limitOf id (mid ++ post) ∧
+    markersOf id (mid ++ RegOp.clearStore id :: post) = markersOf id (mid ++ post) := by
+  simp [limitOf, markersOf, limitFrom, markersFrom, List.foldl_append]
+
 /-! ## C20 — isolation, in one sentence -/
 
 /-- **C20 at the top-level API.** The result buffer of id `j` after `ops ++ ops'` is the buffer after `ops`
     whenever no call of `ops'` is a `run_search j`, `destroy j` or `create j`: calls on other ids — creations,
-    destructions, additions, searches — and `j`'s own `add_record` / `set_limit` / `highlight_with` calls do not
-    change what `get_result_ids(j)` / `get_result_titles(j)` return. Holds for every program, every family of
+    destructions, additions, clears, searches — and `j`'s own `add_record` / `set_limit` / `highlight_with` /
+    `clearStore` calls do not change what `get_result_ids(j)` / `get_result_titles(j)` return. Holds for every program, every family of
     environments, every sorting routine and every call list, valid or not (an invalid call changes nothing). -/
 theorem C20_api_isolated (S : Sorter) (P : Prog) (envs : Nat → Env) (ops ops' : List RegOp) (j : Nat)
     (hq : ∀ op ∈ ops', op.quiet j = true) :
@@ -451,6 +533,34 @@ example : ∃ res ∈ (amGet (Registry.empty.run exSorter Gen.srcProg exEnvs exO
 example : ∃ res ∈ (amGet (Registry.empty.run exSorter Gen.srcProg exEnvs exOps13).results 1).getD [], res.id = 42 :=
   C13_api_whole_title exSorter exSorter_ok exEnvs exEnvs_ok [] exPost exLater 1 0 42 [65, 98, 99, 32, 100, 101, 102]
     7 (by decide) (by decide +kernel) exOps13_valid exPost_keeps exLater_quiet (by decide)
+
+/-- C10 / C20 with a clear: id 1 gets "Abc def" and limit 5, a search, is cleared, gets markers `<` `>` and "xy z"
+    and "de"; the search "de" then finds record 44 only, as a new store with limit 5, markers `<` `>` and those two
+    records would; afterwards id 1 is cleared once more (buffer kept) -/
+def exMid : List RegOp :=
+  [.create 2 1, .addRecord 1 42 [65, 98, 99, 32, 100, 101, 102] 7, .setLimit 1 5, .runSearch 1 [100, 101]]
+def exPostC : List RegOp :=
+  [.highlightWith 1 [60] [62], .addRecord 2 9 [83, 116, 114, 97, 223, 101] 0, .addRecord 1 43 [120, 121, 32, 122] 1,
+   .addRecord 1 44 [100, 101] 3]
+def exLaterC : List RegOp := [.clearStore 1, .addRecord 1 45 [100, 101] 3, .clearStore 2]
+def exOpsC : List RegOp :=
+  [] ++ RegOp.create 1 0 :: (exMid ++ RegOp.clearStore 1 :: exPostC) ++ RegOp.runSearch 1 [100, 101] :: exLaterC
+
+theorem exOpsC_valid : Registry.allValid exSorter Gen.srcProg exEnvs Registry.empty exOpsC = true := by decide +kernel
+
+example := C10_api_clear exSorter exEnvs [] exMid exPostC exLaterC 1 0 [100, 101] exOpsC_valid (by decide) (by decide)
+  (by decide) (by decide)
+example : addsOf 1 exPostC = [(43, [120, 121, 32, 122], 1), (44, [100, 101], 3)] ∧
+    addedOf 1 (exMid ++ RegOp.clearStore 1 :: exPostC) = addsOf 1 exPostC ∧
+    limitOf 1 (exMid ++ RegOp.clearStore 1 :: exPostC) = 5 ∧
+    markersOf 1 (exMid ++ RegOp.clearStore 1 :: exPostC) = ([60], [62]) := by decide
+-- #eval (amGet (Registry.empty.run exSorter Gen.srcProg exEnvs exOpsC).results 1).getD []
+--   [{ id := 44, title := [60, 100, 101, 62] }]      (record 42 "Abc def", added before the clear, is not found)
+-- #eval (amGet (Registry.empty.run exSorter Gen.srcProg exEnvs exOpsC).stores 1).map (·.2.records.map (·.id))
+--   some [45]                                         (the later clear emptied the store, the buffer above is kept)
+/-- the C03 hypothesis `hadd` distinguishes a record added after the clear from one added before it -/
+example : (44, [100, 101], 3) ∈ addedOf 1 (exMid ++ RegOp.clearStore 1 :: exPostC) ∧
+    (42, [65, 98, 99, 32, 100, 101, 102], 7) ∉ addedOf 1 (exMid ++ RegOp.clearStore 1 :: exPostC) := by decide
 
 /-- C20: the calls of `exLater` do not change the buffer of id 1 -/
 example := C20_api_isolated exSorter Gen.srcProg exEnvs ([] ++ RegOp.create 1 0 :: exPost ++ [RegOp.runSearch 1 [100, 101]])
